@@ -27,6 +27,7 @@ var $callDeferred = (deferred, jsErr, fromPanic) => {
     }
 
     $stackDepthOffset--;
+    var aborted = false; /* this panic was superseded: a newer panic was recovered further up, or the goroutine is exiting */
     var outerPanicStackDepth = $panicStackDepth;
     var outerPanicValue = $panicValue;
 
@@ -89,6 +90,12 @@ var $callDeferred = (deferred, jsErr, fromPanic) => {
         // Deferred function threw a JavaScript exception or tries to unwind stack
         // to the point where a panic was handled.
         if (fromPanic) {
+            if (e === null && !$curGoroutine.asleep) {
+                // The stack is being unwound past this panic without suspending the
+                // goroutine: a newer panic was recovered by an outer frame, or
+                // runtime.Goexit() was called. Either way this panic is over.
+                aborted = true;
+            }
             // Re-throw the exception to reach deferral execution call at the end
             // of the function.
             throw e;
@@ -99,7 +106,7 @@ var $callDeferred = (deferred, jsErr, fromPanic) => {
         $callDeferred(deferred, e, fromPanic);
     } finally {
         if (localPanicValue !== undefined) {
-            if ($panicStackDepth !== null) {
+            if ($panicStackDepth !== null && !aborted) {
                 $curGoroutine.panicStack.push(localPanicValue);
             }
             $panicStackDepth = outerPanicStackDepth;
